@@ -778,7 +778,7 @@ mod v_wire_roundtrip {
             repr.emit(&mut Icmpv6Packet::new_unchecked(&mut b1[..]));
             repr.emit(&mut Icmpv6Packet::new_unchecked(&mut b2[..]));
             indep!(b1, b2, $n, $k => ($k < 2 || $k >= 4) && $keep);
-            kani::cover!(b1[$n - 1] != 0, "emitted, last byte non-zero");
+            kani::cover!(b1[$n - 7] != 0, "emitted, a byte of the last option non-zero");
         }};
     }
     /// emit `$repr` into a buffer of its declared length `$n` and parse it back
@@ -793,7 +793,7 @@ mod v_wire_roundtrip {
             let p = p.unwrap();
             let back = NdiscRepr::parse(&p);
             assert!(back == Ok(repr), "prop:c06_parse_of_emit_is_identity");
-            kani::cover!(back.is_ok() && b1[$n - 1] != 0, "parsed back, last byte non-zero");
+            kani::cover!(back.is_ok() && b1[$n - 7] != 0, "parsed back, a byte of the last option/field non-zero");
         }};
     }
     /// both of the above in one harness (small messages)
@@ -812,7 +812,7 @@ mod v_wire_roundtrip {
             let p = p.unwrap();
             let back = NdiscRepr::parse(&p);
             assert!(back == Ok(repr), "prop:c06_parse_of_emit_is_identity");
-            kani::cover!(back.is_ok() && b1[$n - 1] != 0, "parsed back, last byte non-zero");
+            kani::cover!(back.is_ok() && b1[$n - 7] != 0, "parsed back, a byte of the last option/field non-zero");
         }};
     }
 
@@ -1061,7 +1061,7 @@ mod v_wire_roundtrip {
             let p = p.unwrap();
             let back = NdiscOptionRepr::parse(&p);
             assert!(back == Ok(repr), "prop:c06_parse_of_emit_is_identity");
-            kani::cover!(back.is_ok() && b1[$n - 1] != 0, "parsed back, last byte non-zero");
+            kani::cover!(back.is_ok() && b1[$n - 7] != 0, "parsed back, a byte of the last option/field non-zero");
         }};
     }
 
@@ -1970,8 +1970,8 @@ mod v_wire_roundtrip {
             let f = Ieee802154Frame::new_checked(&b1[..]);
             assert!(f.is_ok(), "prop:c06_emitted_packet_passes_new_checked");
             let back = Ieee802154Repr::parse(&f.unwrap());
+            kani::cover!(matches!(back, Ok(Ieee802154Repr { ack_request: true, frame_type: Ieee802154FrameType::Data, .. })), "data frame with ack request emitted and parsed");
             assert!(back == Ok(repr), "prop:c06_parse_of_emit_is_identity");
-            kani::cover!(matches!(back, Ok(Ieee802154Repr { ack_request: true, frame_type: Ieee802154FrameType::Data, .. })), "data frame with ack request parsed back");
         }};
     }
 
